@@ -54,5 +54,6 @@ LHigh == [names |-> <<".text", ".data", ".rodata">>,
           addrs |-> <<<<1, 0, 65535, 65280>>, W64(0), <<0, 2, 65535, 65532>>>>]
 LNoRo == [names |-> <<".data", ".text">>, addrs |-> <<W64(64), W64(4100)>>]
 LQuick == {LRel, LDyn}
+LOneDyn == {LDyn}
 LBig == {LRel, LDyn, LHigh, LNoRo}
 =============================================================================
